@@ -13,3 +13,4 @@ def run(ck):
     filt.r8_coefficient_product_width(ck, P, 'C18-R8')
     filt.r9_degenerate_phases(ck, P)
     filt.r10_touching_supports(ck, P)
+    filt.r11_final_correction(ck, P)
